@@ -379,7 +379,7 @@ def always_exits(body):
     return False
 
 
-def walk_guarded(body, guards=()):
+def walk_guarded(body, guards=(), asserts=False):
     """Yield (stmt, guards) for every statement, recursively.  ``guards`` is a tuple of
     (expr, polarity) that control the statement, including the implicit ``not test`` that
     follows an ``if test: <exit>`` in the same block (structured control dependence).
@@ -388,8 +388,8 @@ def walk_guarded(body, guards=()):
     for s in body:
         yield s, guards
         if isinstance(s, ast.If):
-            yield from walk_guarded(s.body, guards + ((s.test, True),))
-            yield from walk_guarded(s.orelse, guards + ((s.test, False),))
+            yield from walk_guarded(s.body, guards + ((s.test, True),), asserts)
+            yield from walk_guarded(s.orelse, guards + ((s.test, False),), asserts)
             if always_exits(s.body) and not always_exits(s.orelse):
                 guards = guards + ((s.test, False),)
             elif s.orelse and always_exits(s.orelse) and not always_exits(s.body):
@@ -398,17 +398,17 @@ def walk_guarded(body, guards=()):
             g = guards + (("loop", s),)
             if isinstance(s, ast.While):
                 g = g + ((s.test, True),)
-            yield from walk_guarded(s.body, g)
-            yield from walk_guarded(s.orelse, guards)
+            yield from walk_guarded(s.body, g, asserts)
+            yield from walk_guarded(s.orelse, guards, asserts)
         elif isinstance(s, ast.With):
-            yield from walk_guarded(s.body, guards)
+            yield from walk_guarded(s.body, guards, asserts)
         elif isinstance(s, ast.Try):
-            yield from walk_guarded(s.body, guards + (("try", s),))
+            yield from walk_guarded(s.body, guards + (("try", s),), asserts)
             for h in s.handlers:
-                yield from walk_guarded(h.body, guards + (("except", h),))
-            yield from walk_guarded(s.orelse, guards)
-            yield from walk_guarded(s.finalbody, guards)
-        elif isinstance(s, ast.Assert):
+                yield from walk_guarded(h.body, guards + (("except", h),), asserts)
+            yield from walk_guarded(s.orelse, guards, asserts)
+            yield from walk_guarded(s.finalbody, guards, asserts)
+        elif isinstance(s, ast.Assert) and asserts:
             # statements after an assert are guarded by it
             guards = guards + ((s.test, True),)
 
@@ -426,9 +426,9 @@ def guard_text(guards):
     return " and ".join(out) if out else "True"
 
 
-def stmts(f):
+def stmts(f, asserts=False):
     """every statement of a function with its guards (nested defs are not entered)"""
-    return list(walk_guarded(f.body))
+    return list(walk_guarded(f.body, (), asserts))
 
 
 # ---------------------------------------------------------------------------------------
